@@ -313,6 +313,13 @@ def library_input(problem):
     from scipy import sparse
 
     rep = problem["repr"]
+    if problem.get("form") == "symmatrix":
+        # exact problems as ONE symbolic matrix, polynomial in the perturbation symbols (the library Taylor-expands it)
+        problem = dict(problem, form="indices")
+        if rep == "sympy":
+            res = matrix_input(problem)
+            if res is not None:
+                return res
     n_params = problem["n_params"]
     zero = (0,) * n_params
     N = len(problem["assign"])
